@@ -49,6 +49,12 @@ class Unk(Opaque):
     """Unknown numeric value / unknown library object.  Calling it, indexing it or taking an
     attribute gives Unk again; comparisons are UNKNOWN; iteration is not possible."""
 
+    created = 0          # number of unknown values produced so far (a measure of "numeric work has begun")
+
+    def __init__(self, why="opaque"):
+        super().__init__(why)
+        Unk.created += 1
+
     def __call__(self, *a, **k):
         return Unk(self.why)
 
@@ -76,11 +82,22 @@ class DType:
 class ArrDesc:
     """Abstract ndarray."""
 
-    def __init__(self, kind, shape, herm=None, val=None, owner=None, base=None, conj=False, tr=False, name=None):
+    def __init__(self, kind, shape, herm=None, val=None, owner=None, base=None, conj=False, tr=False, name=None,
+                 herm_off=None, diag_real=None, sel=None):
         self.kind, self.shape = kind, tuple(int(x) for x in shape)
         self.herm, self.val, self.owner = herm, val, owner
+        # finer Hermitian structure of a root descriptor: off-diagonal pairs conjugate-symmetric / diagonal real.
+        # herm=True means both; herm=False without further flags means generic entries (neither, by a margin);
+        # herm=False, herm_off=True, diag_real=False is "Hermitian off the diagonal, non-real diagonal".
+        self.herm_off = herm if herm_off is None else herm_off
+        self.diag_real = herm if diag_real is None else diag_real
         self.base, self.conj, self.tr = base, conj, tr    # relation to the descriptor it is derived from
+        self.sel = sel            # None | ('triu'|'tril'|'diag', k): restriction to an index subset of a square matrix
         self.name = name
+
+    @property
+    def generic(self):
+        return self.herm is False and self.herm_off is False and self.diag_real is False
 
     @property
     def ndim(self):
@@ -96,10 +113,18 @@ class ArrDesc:
     def root(self):
         return self.base if self.base is not None else self
 
-    def derived(self, conj=False, tr=False, fresh=True):
-        shape = tuple(reversed(self.shape)) if tr else self.shape
+    def derived(self, conj=False, tr=False, fresh=True, sel=None, shape=None):
+        if shape is None:
+            shape = tuple(reversed(self.shape)) if tr else self.shape
+        new_sel = self.sel if sel is None else sel
+        if sel is not None and self.sel is not None:
+            new_sel = ("other", 0)           # subset of a subset: not tracked
+        if tr and sel is None and self.sel is not None and len(self.shape) >= 2:
+            k, kk = self.sel
+            new_sel = {"triu": ("tril", -kk), "tril": ("triu", -kk)}.get(k, (k, kk))
         return ArrDesc(self.kind, shape, herm=self.herm, val=self.val, owner=None if fresh else self.owner,
-                       base=self.root(), conj=self.conj ^ conj, tr=self.tr ^ tr)
+                       base=self.root(), conj=self.conj ^ conj, tr=self.tr ^ tr, herm_off=self.herm_off,
+                       diag_real=self.diag_real, sel=new_sel)
 
     def fresh(self, kind=None, shape=None, val=None):
         return ArrDesc(kind or self.kind, self.shape if shape is None else shape, val=val)
@@ -110,10 +135,24 @@ class ArrDesc:
     def __repr__(self):
         extra = ""
         if self.herm is not None:
-            extra += " herm" if self.herm else " non-herm"
+            extra += " herm" if self.herm else (" non-herm" if self.generic else " herm-offdiag/non-real-diag")
         if self.owner:
             extra += f" arg:{self.owner}"
         return f"<{self.kind} ndarray {self.shape}{extra}>"
+
+
+class IndexSet:
+    """Result of np.triu_indices / np.tril_indices / np.diag_indices for an n x n matrix."""
+
+    def __init__(self, kind, k, n):
+        self.kind, self.k, self.n = kind, k, n
+
+    def count(self):
+        if self.kind == "triu":
+            return len(_np.triu_indices(self.n, self.k)[0])
+        if self.kind == "tril":
+            return len(_np.tril_indices(self.n, self.k)[0])
+        return self.n
 
 
 def _bshape(a, b):
@@ -358,7 +397,32 @@ class DescDomain(BaseDomain):
                 self._interp.note_effect(f"np.copyto into argument {dst.owner}")
             return None
         t["copyto"] = copyto
-        t["finfo"] = lambda *a, **k: Unk("np.finfo")
+        def tri_indices(kind):
+            def f(n, k=0, m=None):
+                if isinstance(n, int) and not isinstance(n, bool) and isinstance(k, int) and m in (None, n):
+                    return IndexSet(kind, k, n)
+                return Unk(f"np.{kind}_indices")
+            return f
+        t["triu_indices"], t["tril_indices"] = tri_indices("triu"), tri_indices("tril")
+        t["diag_indices"] = lambda n, ndim=2: IndexSet("diag", 0, n) if isinstance(n, int) and ndim == 2 else Unk("np.diag_indices")
+
+        def tri_mask(kind):
+            def f(a, k=0):
+                if isinstance(a, ArrDesc) and a.ndim == 2 and isinstance(k, int):
+                    return a.derived(sel=(kind, k))
+                return Unk(f"np.{kind}")
+            return f
+        t["triu"], t["tril"] = tri_mask("triu"), tri_mask("tril")
+
+        def diag(a, k=0):
+            if isinstance(a, ArrDesc) and a.ndim == 2 and a.shape[0] == a.shape[1] and k == 0:
+                return a.derived(sel=("diag", 0), shape=(a.shape[0],))
+            return Unk("np.diag")
+        t["diag"] = t["diagonal"] = diag
+        finfo = TableModule("np.finfo", {"eps": 2.220446049250313e-16, "tiny": 2.2250738585072014e-308,
+                                         "max": 1.7976931348623157e308, "min": -1.7976931348623157e308,
+                                         "resolution": 1e-15})
+        t["finfo"] = lambda *a, **k: finfo
         def norm(a, *x, **k):
             if isinstance(a, ArrDesc) and a.val == "nonzero" and a.size > 0 and not x and not k:
                 return Pos("norm of a generic non-zero array")
@@ -390,17 +454,37 @@ class DescDomain(BaseDomain):
         conjugate in any spelling) of the other -> the Hermitian flag of the descriptor."""
         if isinstance(a, ArrDesc) and isinstance(b, ArrDesc):
             _bshape(a.shape, b.shape)     # incompatible shapes: numpy raises
-            if a.root() is b.root():
+            if a.root() is b.root() and a.sel == b.sel:
                 dc, dt = a.conj ^ b.conj, a.tr ^ b.tr
                 if not dc and not dt:
                     return True
                 r = a.root()
-                if r.herm is False:
+                if r.generic:
                     # generic entries, "non-Hermitian by a margin": no accidental symmetry of any kind
                     return False
-                if r.herm is True and dc and dt and r.ndim == 2 and r.shape[0] == r.shape[1]:
-                    return True
+                if dc and dt and r.ndim == 2 and r.shape[0] == r.shape[1]:
+                    # X restricted to S  vs  X^H restricted to S: which part of the Hermitian property does S test?
+                    part = self._herm_part(a.sel)
+                    if part == "full" and r.herm_off is not None and r.diag_real is not None:
+                        return bool(r.herm_off and r.diag_real)
+                    if part == "off" and r.herm_off is not None:
+                        return bool(r.herm_off)
+                    if part == "diag" and r.diag_real is not None:
+                        return bool(r.diag_real)
         return Unk("np.allclose")
+
+    @staticmethod
+    def _herm_part(sel):
+        if sel is None:
+            return "full"
+        kind, k = sel
+        if kind == "triu":
+            return "off" if k >= 1 else ("full" if k == 0 else None)
+        if kind == "tril":
+            return "off" if k <= -1 else ("full" if k == 0 else None)
+        if kind == "diag" and k == 0:
+            return "diag"
+        return None
 
     def herm_flag(self, a):
         if isinstance(a, ArrDesc):
@@ -493,7 +577,7 @@ class DescDomain(BaseDomain):
             if v.kind == "bool" and v.size == 1 and v.val in ("true", "false"):
                 return v.val == "true"
             return UNKNOWN(("truth of array", v.shape))
-        if isinstance(v, (DType, TableModule, OpaqueModule, ExcClass, ModuleRef)):
+        if isinstance(v, (DType, TableModule, OpaqueModule, ExcClass, ModuleRef, IndexSet)):
             return True
         if isinstance(v, complex):
             return bool(v)
@@ -679,6 +763,10 @@ class DescDomain(BaseDomain):
         if isinstance(obj, Unk):
             return Unk("item")
         if isinstance(obj, ArrDesc):
+            if isinstance(idx, IndexSet):
+                if obj.ndim == 2 and obj.shape == (idx.n, idx.n):
+                    return obj.derived(sel=(idx.kind, idx.k), shape=(idx.count(),))
+                return Unk("item")
             if not _is_concrete_index(idx):
                 return Unk("item")
             try:
@@ -734,20 +822,25 @@ class GuardInterp(Interp):
         self.effects = []        # {'stack': [...], 'text': str}
         self.stmt_stack = []     # (depth, fi, stmt)
         self.owned_containers = {}
+        self.unk_base = Unk.created
+        self._unk_marks = []     # Unk.created at the start of each statement of stmt_stack
 
     def exec(self, s, env):
         self.stmt_stack.append((len(self.call_stack), self.call_stack[-1], s))
+        self._unk_marks.append(Unk.created)
         try:
             return super().exec(s, env)
         except BaseException as e:
             if not hasattr(e, "q_stack") and not type(e).__name__.startswith("_"):
                 try:
                     e.q_stack = list(self.stmt_stack)
+                    e.q_work = self._unk_marks[-1] - self.unk_base
                 except Exception:
                     pass
             raise
         finally:
             self.stmt_stack.pop()
+            self._unk_marks.pop()
 
     def note_effect(self, text):
         self.effects.append({"stack": list(self.stmt_stack), "text": text})
@@ -816,7 +909,8 @@ class GuardInterp(Interp):
 class Outcome:
     """Result of interpreting one entry point on one argument descriptor."""
 
-    def __init__(self, kind, it, exc=None, node=None, stack=None, reason=None, value=None):
+    def __init__(self, kind, it, exc=None, node=None, stack=None, reason=None, value=None, work=0):
+        self.work_before = work         # unknown values produced before the statement where interpretation ended began
         self.kind = kind                # 'raise' (explicit) | 'implicit' | 'return' | 'stop'
         self.exc, self.node, self.reason, self.value = exc, node, reason, value
         self.stack = stack or []
@@ -884,10 +978,11 @@ def run_entry(program, fi, args, kwargs=None, bound_self=None, summaries=None, m
         return Outcome("implicit", it, exc=getattr(e, "exc_name", "ValueError"), stack=getattr(e, "q_stack", []),
                        reason=str(e)[:160])
     except NeedChoice as e:
-        return Outcome("stop", it, stack=getattr(e, "q_stack", []),
+        return Outcome("stop", it, stack=getattr(e, "q_stack", []), work=getattr(e, "q_work", 0),
                        reason=f"data-dependent condition `{_src(e.node)}`")
     except UnknownTruth as e:
-        return Outcome("stop", it, stack=getattr(e, "q_stack", []), reason="data-dependent truth value")
+        return Outcome("stop", it, stack=getattr(e, "q_stack", []), work=getattr(e, "q_work", 0),
+                       reason="data-dependent truth value")
     except AnalysisError as e:
         return Outcome("stop", it, stack=getattr(e, "q_stack", []), reason=f"outside the evaluator: {str(e)[:140]}")
     except RecursionError:
@@ -1154,7 +1249,8 @@ class StaticEffects:
         if r is None:
             return None
         if r == self.self_name:
-            return "self"
+            # stores of a constructor to the object under construction are not effects on caller state
+            return None if self.fi.name == "__init__" else "self"
         return self._param_alias(r, nid)
 
     def _scan(self):
